@@ -880,6 +880,11 @@ def e2_archetypes_eq(prog):
                         scanned.append((('elem', a[1]) + tuple(a[2:3] if a[0] == 'next' else ()), side))
         if p.ret == pathsem.TRUE:
             n_true += 1
+            # a hand-written loop says "equal" only after it has run out of archetypes
+            for a, v in p.conds:
+                if isinstance(a, tuple) and a[0] == 'next' and v == 1 and any(S(pathsem.iter_chain(a[1])[0]) == ops[sd] or pathsem.mentions(S(pathsem.iter_chain(a[1])[0]), lambda u, sd=sd: u == ops[sd]) for sd in (1, 2)):
+                    if not any(isinstance(b_, tuple) and b_[0] == 'next' and b_[1] == a[1] and w == 0 for b_, w in p.conds):
+                        once('true-before-all-compared', 'Archetypes::eq returns true from inside the loop over the archetypes: the archetypes after the current one are never compared')
             if not sizes:
                 once('no-size-comparison', 'the number of archetypes of both worlds is not compared')
             elif not any(a[1] == 'Eq' and v is True for a, v in sizes):
